@@ -24,9 +24,9 @@ def check(ctx, src):
     ctx.rule("DET-ENTROPY", "id()/hash()/time/random/pid/listdir values on the compile path are used only for membership tests")
     ctx.rule("DET-HYSET", "same as DET-SET for set-valued variables in the core .hy files")
     mods = [src.py(r) for r in COMPILE_PATH if src.exists(r)]
-    ctx.require(len(mods) >= 12, "compile-path modules missing")
+    ctx.need(len(mods) >= 12, "compile-path modules missing")
     facts = detflow.SetFacts(mods)
-    ctx.require({"defined", "iterators"} <= set(facts.set_attrs), "scope classes no longer keep `defined`/`iterators` sets (anchor vanished)")
+    ctx.need({"defined", "iterators"} <= set(facts.set_attrs), "scope classes no longer keep `defined`/`iterators` sets (anchor vanished)")
     for m in mods:
         for q, n, verdict, how in detflow.scan_module(facts, m):
             ctx.functions.add(f"{m.rel}:{q}")
